@@ -6,4 +6,4 @@ git -C $wt checkout -q --detach $(git -C /repo rev-parse HEAD) 2>/dev/null
 git -C $wt checkout -q -- . && git -C $wt clean -fdq
 git -C $wt apply "$1" || git -C $wt apply -C1 "$1" || { echo "patch does not apply"; exit 2; }
 shift
-for p in ${*:-all}; do /verif/bin/wcheck -repo $wt -prop $p -evdir /tmp/evx 2>&1 | grep -E ": rule |VIOLATION|KNOWN" | sed -E 's/  \[key:.*//' | cut -c1-${CUT:-400}; done
+for p in ${*:-all}; do ${WCHECK:-/verif/bin/wcheck} -repo $wt -prop $p -evdir /tmp/evx 2>&1 | grep -E ": rule |VIOLATION|KNOWN" | sed -E 's/  \[key:.*//' | cut -c1-${CUT:-400}; done
